@@ -267,10 +267,7 @@ class CSRReaderCall(Contract):
         O = S.self.attrs["bin1_offsets"]
         row_lo = O[S.i]
         # new rank function: old on earlier rows, oldn + filter-rank on this row
-        nr = _z3.Function(I.path.fresh_name("g.rank"), _z3.IntSort(), _z3.IntSort())
-        p = _z3.Int(I.path.fresh_name("p!gr"))
-        I.path.assume(_z3.ForAll([p], nr(p) == _z3.If(p < row_lo, oldrank(p), oldn + frank(p - row_lo))))
-        S.set_ghost("rank", nr)
+        S.set_ghost("rank", lambda p: _z3.If(p < row_lo, oldrank(p), oldn + frank(p - row_lo)))
 
     @property
     def loops(self):
